@@ -82,6 +82,13 @@ CHECKS["C11"] = ("vcheck", "proptest messages signed through the Writer in all t
     "Generated search with shrinking; evaluations are individual verifications (about 60 per message in quick, every octet position in thorough).",
     "Trusts the hmac/sha1/sha2 crates as primitives (vector-checked); composition is vmodel::tsig.", "§4 C11")
 
+CHECKS["C26"] = ("vcheck", "model-based: proptest histories of (advance g seconds via the verif_hooks time-shift hook, request) against an unbounded-integer token bucket; sent responses compared with an unlimited twin server",
+    "Generated search with shrinking over histories of up to 200 steps with gaps from 0 to 2^32+1 seconds incl. the u32 overflow boundaries of rate x seconds; every step's send/slip/drop verdict checked; slip 0/1 exact, slip >= 2 either.",
+    "Uses the hook Server::verif_rrl_shift_time (feature verif_hooks). Real time also passes: histories taking > 0.5 s are retried; sub-second remainders are carried by the limiter so < 1 s cannot add a refill.", "§4 C26")
+CHECKS["C27"] = ("vcheck", "proptest pairs of requests against a fresh limiter with a limit of one per stream; executable stream-key predicate (family, masked prefix, category, effective name incl. wildcard source from the reference resolver)",
+    "Generated search with shrinking; pairs are built as near-copies so that exactly one key component differs in most cases (counted in classes); table sizes 1/7/65537 so bucket collisions (which evict and send) are exercised.",
+    "32-bit name-hash collisions ignored; pairs taking > 0.5 s retried.", "§4 C27")
+
 NOT_YET = {}
 
 def main():
